@@ -404,7 +404,7 @@ def gen_payload(rng, pl, idx):
 # Rebuild reads candidates piece by piece, hashes whole candidates (v2 route) and copies them: code that maps, buffers or copies
 # through fixed windows (1 MiB and its neighbours 4 / 8 MiB) goes wrong only for candidates of about a MiB and more, and for
 # piece lengths above the window.  The small streams use 16 / 32 KiB pieces and files of a few pieces; these use piece lengths
-# of 256 KiB .. 4 MiB (thorough tier: up to 16 MiB through harness/scale.py) and files of 1 .. 6 MiB.  End-to-end searches only
+# of 256 KiB .. 4 MiB (two shapes at 8 / 16 MiB; thorough tier: more of those through harness/scale.py) and files of 1 .. 9 MiB.  End-to-end searches only
 # (reference oracle, hashlib): nothing of this goes to the extracted models.
 KIB, MIB = 1 << 10, 1 << 20
 # (piece length, file sizes in listing order, what it is aimed at)
@@ -421,6 +421,8 @@ SCALE_TEMPLATES = [
     (256 * KIB, [70000, 4 * MIB + 123, 0, 5], "256 KiB pieces: big file after a small one, an empty file and a tiny file in its last piece"),
     (MIB, [6 * MIB - 1, 1, MIB + 1], "1 MiB pieces: file one byte short of 6 MiB completed by a one-byte file"),
     (4 * MIB, [2 * MIB + 5, 3 * MIB + 300, 1], "4 MiB pieces: two files above 1 MiB inside the first piece"),
+    (8 * MIB, [9 * MIB + 5, 100], "8 MiB pieces: candidate ends 1 MiB into its second piece, a small file after it"),
+    (16 * MIB, [300, 9 * MIB + 1, 7], "16 MiB pieces: the whole torrent is one piece, a candidate above 8 MiB between small files"),
 ]
 SCALE_LAYOUTS = [
     ["00_big.bin", "01_note.txt", "02_readme.md", "03_exact.bin", "04_tail.bin"],
@@ -662,8 +664,8 @@ def gen_case(case_seed, profile, workdir, force_mode=None):
     in the search directories, the earlier file has a wholly different same-size decoy enumerated first: C14 only), 'namesake'
     (directory torrents -- v2, hybrid, v1; creators and reference encoder; single metafiles and batches -- with a top-level FILE
     named like the torrent beside other files and directories, or a SUB-DIRECTORY named like the torrent),
-    'scale:<shape>:<kind>' / 'scale14:...' (the first torrent is a payload at SCALE: piece lengths 256 KiB .. 4 MiB -- shapes
-    g<i>: up to 16 MiB -- and candidates of 1 .. 6 MiB aimed at 1 / 4 / 8 MiB windows; see scale_payload / scale_plan; decoys as
+    'scale:<shape>:<kind>' / 'scale14:...' (the first torrent is a payload at SCALE: piece lengths 256 KiB .. 16 MiB and
+    candidates of 1 .. 9 MiB -- shapes g<i>: harness/scale.py -- aimed at 1 / 4 / 8 MiB windows; see scale_payload / scale_plan; decoys as
     in c13 / c14).
     Everything is derived from case_seed.  Files are written under workdir.
     force_mode='cli-proc': the unpatched command line in a fresh interpreter (enumeration order of the filesystem).
